@@ -20,8 +20,29 @@ CRATES = {
 }
 
 
+SHIM = 'vstd'          # /verif/shim: plain-Rust reference bodies of std combinators (see shim/src/lib.rs), always loaded
+SHIM_DIR = os.path.join(os.path.dirname(os.path.dirname(os.path.abspath(__file__))), 'shim')
+
+
 class DumpError(Exception):
     pass
+
+
+def dump_shim():
+    """MIR of the shim crate (independent of /repo; dumped with the same nightly on every run)"""
+    tdir = os.path.join(BUILD, 'mir_shim'); os.makedirs(tdir, exist_ok=True)
+    lock = open(os.path.join(BUILD, 'mir.lock'), 'w'); fcntl.flock(lock, fcntl.LOCK_EX)
+    try:
+        t0 = time.time()
+        for p in glob.glob(os.path.join(tdir, 'debug', '.fingerprint', 'vstd-*')): shutil.rmtree(p, ignore_errors=True)
+        cmd = ['cargo', '+nightly', 'rustc', '--offline', '--manifest-path', os.path.join(SHIM_DIR, 'Cargo.toml'), '--lib', '--target-dir', tdir,
+               '--', '-Zunpretty=mir', '-C', 'debug-assertions=off', '-C', 'overflow-checks=on']
+        e = _env(); e.pop('RUSTFLAGS', None)
+        r = subprocess.run(cmd, env=e, capture_output=True, text=True, cwd=SHIM_DIR)
+        if r.returncode != 0 or 'fn ' not in r.stdout: raise DumpError('MIR dump of the std shim crate failed:\n' + r.stderr[-2000:])
+        return r.stdout, {}, time.time() - t0
+    finally:
+        fcntl.flock(lock, fcntl.LOCK_UN); lock.close()
 
 
 def _env():
@@ -35,6 +56,7 @@ def _env():
 
 def dump_crate(crate, want_shims=True):
     """-> (mir text, {coroutine body name: shim text}, seconds).  Always re-runs rustc on the crate."""
+    if crate == SHIM: return dump_shim()
     pkg, feats, _ = CRATES[crate]
     tdir = os.path.join(BUILD, 'mir'); os.makedirs(tdir, exist_ok=True)
     ddir = os.path.join(BUILD, 'dump', crate); shutil.rmtree(ddir, ignore_errors=True); os.makedirs(ddir, exist_ok=True)
@@ -67,6 +89,7 @@ def dump_crate(crate, want_shims=True):
 def scan_enums(crate):
     """variant order of the crate's own enums, from the Rust source (cfg-gated variants are skipped when the cfg
     names a feature we do not build)"""
+    if crate == SHIM: return {}
     _, feats, src = CRATES[crate]
     feats = set(feats.split(','))
     out = {}
@@ -107,6 +130,7 @@ def scan_enums(crate):
 
 def scan_structs(crate):
     """field order of the crate's structs with named fields: {(path relative to the repo, struct name): [field names]}"""
+    if crate == SHIM: return {}
     _, feats, src = CRATES[crate]
     out = {}
     for path in glob.glob(os.path.join(REPO, src, '**', '*.rs'), recursive=True):
@@ -171,7 +195,7 @@ class Program:
 
 def load(crates):
     p = Program()
-    for c in crates: p.add_crate(c)
+    for c in list(crates) + ([SHIM] if SHIM not in crates else []): p.add_crate(c)
     return p
 
 
@@ -180,7 +204,7 @@ def dump_to_cache(crates):
     import json, tempfile
     out = {}
     d = os.path.join(BUILD, 'run', str(os.getpid())); shutil.rmtree(d, ignore_errors=True); os.makedirs(d, exist_ok=True)
-    for c in crates:
+    for c in list(crates) + ([SHIM] if SHIM not in crates else []):
         text, shims, dt = dump_crate(c)
         p = os.path.join(d, c + '.mir'); open(p, 'w').write(text)
         sp = os.path.join(d, c + '.shims.json'); json.dump(shims, open(sp, 'w'))
@@ -199,7 +223,7 @@ def dump_to_cache(crates):
 def load_cached(blobs, crates):
     import json
     p = Program()
-    for c in crates:
+    for c in list(crates) + ([SHIM] if SHIM not in crates and SHIM in blobs else []):
         b = blobs[c]
         text = open(b['mir']).read(); p.dump_s += b['dump_s']; p.crates.append(c); p.lines += text.count('\n')
         mir.parse_mir_text(text, c, p.fns)
